@@ -215,5 +215,5 @@ MatrixXd WhiteNoiseAcceleration::getStateTransitionMatrix()
 
 VectorXd WhiteNoiseAcceleration::getTransitionProbability(const Ref<const MatrixXd>& prev_states, const Ref<const MatrixXd>& cur_states)
 {
-    return utils::multivariate_gaussian_density(prev_states, prev_states.col(0), pimpl_->Q_);
+    return utils::multivariate_gaussian_density(cur_states - pimpl_->F_ * prev_states, VectorXd::Zero(cur_states.rows()), pimpl_->Q_);
 }
